@@ -23,9 +23,13 @@ func (gowrapSuite) Gen(r *rand.Rand, i int) Case {
 	c := Case{Header: "gowrap"}
 	for j, n := 0, 6+r.Intn(8); j < n; j++ {
 		out := pick(r, "nil", fmt.Sprintf("e%d", 1+r.Intn(9)), fmt.Sprintf("panic%d", []int{0, 1, 2, 9}[r.Intn(4)]))
-		ctx := pick(r, "none", "pre", "during", "during", "after", "race")
+		ctx := pick(r, "none", "pre", "during", "during", "after", "race", "late")
 		fn := pick(r, "run", "run", "fb")
 		via := "cancel"
+		if ctx == "late" {
+			fn = "run" // (a fallback's run step goes through the same wrapper and would wait at the same Done())
+			c.Tags = append(c.Tags, "caller-reaches-select-late")
+		}
 		if fn == "run" && (ctx == "during") && r.Intn(3) == 0 {
 			via = "timeout"
 		}
@@ -65,6 +69,13 @@ func (gowrapSuite) Gen(r *rand.Rand, i int) Case {
 func (gowrapSuite) Nontrivial(tags map[string]int) bool {
 	return tags["ctx-during"]+tags["ctx-race"]+tags["ctx-pre"] > 0
 }
+
+type lateCtx struct {
+	context.Context
+	gate chan struct{}
+}
+
+func (l lateCtx) Done() <-chan struct{} { <-l.gate; return l.Context.Done() }
 
 func helperGoroutines() int {
 	buf := make([]byte, 1<<20)
@@ -150,6 +161,13 @@ func runGoScenario(m map[string]string) string {
 	if ctxMode == "pre" {
 		cancel()
 	}
+	// "late": the context never ends, but its Done() — which Go evaluates when it starts waiting — does not answer before
+	// the wrapped function has finished (returned or panicked) and its goroutine has wound down: the caller reaches its
+	// select with the outcome already buffered
+	lateGate := make(chan struct{})
+	if ctxMode == "late" {
+		ctx = lateCtx{ctx, lateGate}
+	}
 	started := make(chan struct{})
 	release := make(chan struct{})
 	finished := make(chan struct{})
@@ -199,6 +217,14 @@ func runGoScenario(m map[string]string) string {
 	}()
 	// choreography
 	switch ctxMode {
+	case "late":
+		close(release)
+		select {
+		case <-finished:
+		case <-time.After(time.Second):
+		}
+		time.Sleep(5 * time.Millisecond)
+		close(lateGate)
 	case "none", "after":
 		close(release)
 	case "pre":
@@ -234,7 +260,7 @@ func runGoScenario(m map[string]string) string {
 	}
 	// let the outcome travel (lost-error report) and the helpers wind down
 	leak := "x"
-	if finish || ctxMode == "none" || ctxMode == "after" || ctxMode == "race" {
+	if finish || ctxMode == "none" || ctxMode == "late" || ctxMode == "after" || ctxMode == "race" {
 		select {
 		case <-finished:
 		case <-time.After(time.Second):
